@@ -135,6 +135,23 @@ def parent_search(ctx):
             pay = strip_casts(dict(t[3])['0'])
             found = pay[0] == 'call' and pay[1] == 'std::iter::Iterator::rposition'
             tried = any(c[0] == 'discr' and c[1][0] == 'try' and v == [0] for c, v, tr in gs)
+            if not found and item is not None:
+                # accepted shortcut: the layer directly before this one, taken only when its level is lower (then it *is* the nearest one)
+                import poly as P
+                prev = P.make((1, ('field', item, '0')), (-1,))
+                if P.poly(pay) == prev:
+                    for c, v, tr in gs:
+                        if c[0] == 'bin' and c[1] == 'Lt' and tr is True:
+                            l, r_ = strip_casts(c[2]), strip_casts(c[3])
+                            idx = None
+                            if l[0] == 'field' and l[2] == 'child_level':
+                                e = l[1]
+                                if e[0] == 'index' and is_param(e[1], 1):
+                                    idx = e[2]
+                                elif e[0] == 'call' and e[1] == 'std::ops::Index::index' and is_param(e[2][0], 1):
+                                    idx = e[2][1]
+                            if idx is not None and P.poly(idx) == prev and r_ == ('field', ('field', item, '1'), 'child_level'):
+                                found = tried = True
             ctx.inst('V5', 'parent', z == [False] and found and tried, 'Some(%s) under level != 0 (%s), payload is the search result (%s), reached only on the '
                      'Continue edge of `?` (%s)' % (show(pay)[:50], z == [False], found, tried), sp, key=b.name + '|V5|some@%d' % ns)
     ctx.floor('None/Some constructions in compute_parents', nn + ns, 2)
